@@ -568,4 +568,240 @@ theorem to_leaf (inp : Input) (H : PlainOk inp) (d : Leaf) (hd : d ∈ leavesOf 
     rw [hspec.1 rfl]
     rfl
 
+/-- a destination leaf as candidate for source leaf `s` (FromX), in the generator's terms -/
+def gFrom (inp : Input) (s d : Leaf) : Option (Leaf × Strat) :=
+  if partLeaf inp.dest d && inp.nm (fieldOf s) (fieldOf d) then
+    (pairStrat inp.conv (indexed inp.fns) .dest .src d.decl.ty s.decl.ty).map (fun st => (d, st))
+  else none
+
+theorem candsFrom_eq (inp : Input) (H : PlainOk inp) (s : Leaf) (hs : s ∈ leavesOf inp.src) :
+    candsFrom inp s = if partLeaf inp.src s && !inp.manualR.contains s.decl.name then
+      (leavesOf inp.dest).filterMap (gFrom inp s) else [] := by
+  have hemb := H.embed
+  rw [F_embedSkip_eq, Bool.or_eq_false_iff] at hemb
+  have hfm : (leavesOf inp.dest).filterMap (fun d =>
+      if takesPart inp.dest inp.destSkipEmbeds d && readable inp.destNew d &&
+         specNameMatch inp.ic (effName inp.srcNew s) (twinName inp.destNew d.decl.name) then
+        (specStrategy inp .dest .src d.decl.ty s.decl.ty).map (fun st => (d, st))
+      else none) = (leavesOf inp.dest).filterMap (gFrom inp s) := by
+    apply filterMap_congr'
+    intro d hd
+    have hr : readable inp.destNew d = isExported d.decl.name := by simp [readable, H.hd]
+    have hn := nm_spec inp H.tagAmb s d hs (H.srcNames s hs).1 (H.srcNames s hs).2 (H.destNames d hd).1 (H.destNames d hd).2
+    unfold gFrom
+    rw [hr, takesPart_part inp.dest _ hemb.2 d hd, H.hs, H.hd, ← hn, pairStrat_eq_spec]
+  unfold candsFrom
+  have hw : writable inp.src inp.srcNew s = isExported s.decl.name := by simp [writable, H.hs]
+  rw [hfm, hw, takesPart_part inp.src _ hemb.1 s hs]
+  cases hp : partLeaf inp.src s <;> cases hmw : inp.manualR.contains s.decl.name <;> simp
+
+theorem specFrom_of_cands (inp : Input) (s : Leaf) :
+    (candsFrom inp s = [] → specFrom inp s = some .zero) ∧
+    (∀ c, candsFrom inp s = [c] → specFrom inp s = some (provenance [] c)) := by
+  constructor
+  · intro h; simp [specFrom, h]
+  · intro c h; simp [specFrom, h]
+
+/-- C05 at the leaves, FromX: the value a source leaf holds after `r.FromX(d)` on a fully populated destination — whatever
+    the receiver held — is the value the property prescribes (`specFrom`) -/
+theorem from_leaf (inp : Input) (H : PlainOk inp) (recv : Recv) (s : Leaf) (hs : s ∈ leavesOf inp.src) :
+    optV (specFrom inp s) = some (obsLeaf (execFrom inp [] recv) s) := by
+  have hsh := H.shadow
+  rw [F_skipShadow_eq, Bool.or_eq_false_iff] at hsh
+  have hsf : (plan inp).srcFields = sideFields inp.src false := by simp [plan, H.hs]
+  have hdf : (plan inp).destFields = sideFields inp.dest false := by simp [plan, H.hd]
+  have hWF := WF09_of_input inp H.hs H.hd (by simp [H.hm]) H.sel1 H.sel2 H.shadow
+  have hexec := (no_panic inp hWF []).2 recv
+  have hctor : (plan inp).srcCtor = none := (plan_plain_ctors inp H.hs H.hd).2
+  have hpairs := fun c => (plan_pairs inp H.hs H.hd H.uniq c).2
+  obtain ⟨_, _, hinv⟩ := plan_inv inp
+  have hdsN : (plan inp).destFields.Nodup := by rw [hdf]; exact nodup_of_map_nodup _ _ (sideFields_plain_nodup _)
+  have hN := stmts_nodup _ _ hdsN hinv.fromNodup
+  have hR : ∀ c ∈ (plan inp).fromStmts, ∃ rl, c.rd = fieldOf rl ∧ resolveField inp.destSem.tree c.rd = some rl := by
+    intro c hc
+    have := ((hpairs c).mp hc).2.1
+    obtain ⟨l, _, h1, h2, _⟩ := field_is_leaf inp.dest H.sel2 hsh.2 c.rd (hdf ▸ this)
+    exact ⟨l, h1, h2⟩
+  have hW : ∀ c ∈ (plan inp).fromStmts, ∃ wl ∈ leavesOf inp.srcSem.tree, c.wr = fieldOf wl ∧
+      resolveField inp.srcSem.tree c.wr = some wl := by
+    intro c hc
+    have := ((hpairs c).mp hc).1
+    obtain ⟨l, h0, h1, h2, _⟩ := field_is_leaf inp.src H.sel1 hsh.1 c.wr (hsf ▸ this)
+    exact ⟨l, h0, h1, h2⟩
+  have hlv := leaf_value inp.destSem inp.srcSem (plan inp).fromStmts { alloc := (tables inp (plan inp)).srcAlloc } rfl
+    hR hW hN H.keys1 s hs
+  have hobs : obsLeaf (execFrom inp [] recv) s =
+      (((plan inp).fromStmts.foldl (idealStmt inp.destSem inp.srcSem []) { alloc := (tables inp (plan inp)).srcAlloc }).get
+        (joinPath s.path)).show := by
+    rw [hexec]
+    simp only [obsLeaf, idealFrom, idealStart, hctor]
+  rw [hobs]
+  have hspec := specFrom_of_cands inp s
+  rw [candsFrom_eq inp H s hs] at hspec
+  by_cases hS : ∃ c ∈ (plan inp).fromStmts, c.wr = fieldOf s
+  · obtain ⟨c, hc, hcw⟩ := hS
+    obtain ⟨rl, hr1, hr2⟩ := hR c hc
+    have h5 := (hpairs c).mp hc
+    obtain ⟨rl', hrl', hr1', hr2', hrp⟩ := field_is_leaf inp.dest H.sel2 hsh.2 c.rd (hdf ▸ h5.2.1)
+    have : rl' = rl := by
+      have : resolveField inp.dest c.rd = some rl := hr2
+      rw [hr2'] at this; exact Option.some.inj this
+    subst this
+    obtain ⟨wl, hwl, hw1, _, hwp⟩ := field_is_leaf inp.src H.sel1 hsh.1 c.wr (hsf ▸ h5.1)
+    have hwd : wl = s := fieldOf_inj inp.src H.keys1 wl s hwl hs (hw1.symm.trans hcw)
+    subst hwd
+    have hmw : inp.manualR.contains wl.decl.name = false := by
+      have := h5.2.2.2.2.1
+      rw [hcw] at this
+      simpa [fieldOf] using this
+    rw [(hlv.2 c hc hcw rl' hr1 hr2)]
+    have hcs : (leavesOf inp.dest).filterMap (gFrom inp wl) = [(rl', c.strat)] := by
+      apply filterMap_single _ (leaves_nodup _ H.keys2) _ rl' _ hrl'
+      · unfold gFrom
+        have hnm : inp.nm (fieldOf wl) (fieldOf rl') = true := by rw [← hr1, ← hcw]; exact h5.2.2.1
+        have hps := h5.2.2.2.2.2
+        rw [hr1, hcw] at hps
+        simp only [fieldOf] at hps
+        simp [hrp, hnm, hps]
+      · intro d hd hne
+        unfold gFrom
+        by_cases hcond : (partLeaf inp.dest d && inp.nm (fieldOf wl) (fieldOf d)) = true
+        · simp only [hcond, ↓reduceIte]
+          cases hps : pairStrat inp.conv (indexed inp.fns) .dest .src d.decl.ty wl.decl.ty with
+          | none => rfl
+          | some st =>
+            exfalso
+            simp only [Bool.and_eq_true] at hcond
+            have hdf' := leaf_is_field inp.dest H.sel2 hsh.2 d hd hcond.1
+            have hc' : (⟨fieldOf d, fieldOf wl, st⟩ : Claim) ∈ (plan inp).fromStmts :=
+              (hpairs _).mpr ⟨hcw ▸ h5.1, hdf ▸ hdf', hcond.2, rfl, by rw [← hcw]; exact h5.2.2.2.2.1, hps⟩
+            have hcc : (⟨fieldOf d, fieldOf wl, st⟩ : Claim) = c :=
+              inj_of_map_nodup (fun x : Claim => x.wr.name) _ hN hc' hc (by simp [hcw])
+            have : fieldOf d = fieldOf rl' := by rw [← hr1, ← hcc]
+            exact hne (fieldOf_inj inp.dest H.keys2 d rl' hd hrl' this)
+        · simp [hcond]
+    rw [hwp, hmw, hcs] at hspec
+    simp only [Bool.not_false, Bool.and_self, ↓reduceIte] at hspec
+    rw [hspec.2 _ rfl]
+    rfl
+  · have hno : ∀ c ∈ (plan inp).fromStmts, c.wr ≠ fieldOf s := fun c hc e => hS ⟨c, hc, e⟩
+    rw [hlv.1 hno]
+    have hnil : (if (partLeaf inp.src s && !inp.manualR.contains s.decl.name) = true then
+        (leavesOf inp.dest).filterMap (gFrom inp s) else []) = [] := by
+      split
+      · rename_i hcond
+        simp only [Bool.and_eq_true, Bool.not_eq_true'] at hcond
+        apply filterMap_nil'
+        intro d hd
+        unfold gFrom
+        by_cases hc2 : (partLeaf inp.dest d && inp.nm (fieldOf s) (fieldOf d)) = true
+        · simp only [hc2, ↓reduceIte]
+          cases hps : pairStrat inp.conv (indexed inp.fns) .dest .src d.decl.ty s.decl.ty with
+          | none => rfl
+          | some st =>
+            exfalso
+            simp only [Bool.and_eq_true] at hc2
+            have hdf' := leaf_is_field inp.dest H.sel2 hsh.2 d hd hc2.1
+            have hsf' := leaf_is_field inp.src H.sel1 hsh.1 s hs hcond.1
+            have hmw : (fieldOf s).name ∉ inp.manualR := by
+              have := hcond.2
+              simpa [fieldOf] using this
+            have hc' : (⟨fieldOf d, fieldOf s, st⟩ : Claim) ∈ (plan inp).fromStmts :=
+              (hpairs _).mpr ⟨hsf ▸ hsf', hdf ▸ hdf', hc2.2, rfl, hmw, hps⟩
+            exact hno _ hc' rfl
+        · simp [hc2]
+      · rfl
+    rw [hnil] at hspec
+    rw [hspec.1 rfl]
+    rfl
+
+
+theorem filterMap_eq_map_of {α β} (L : List α) (f : α → Option β) (g : α → β) (h : ∀ x ∈ L, f x = some (g x)) :
+    L.filterMap f = L.map g := by
+  induction L with
+  | nil => rfl
+  | cons a L ih =>
+    simp only [List.filterMap_cons, h a List.mem_cons_self, List.map_cons]
+    rw [ih (fun x hx => h x (List.mem_cons_of_mem _ hx))]
+
+/-- C05, the whole observation: for every input satisfying `PlainOk` whose nested struct pairs are mapped (not converted
+    wholesale: `nestedMapped`, the `to:nested` / `from:nested` observable), what the model computes — by executing the emitted
+    statement lists — is what the property prescribes, key by key -/
+theorem obs05_eq_spec05 (inp : Input) (H : PlainOk inp) (hn : nestedMapped inp = true) : obs05 inp = spec05 inp := by
+  have hcomp := modelCompiles_plain inp H.hs H.hd H.sel1 H.sel2 H.shadow
+  have hWF := WF09_of_input inp H.hs H.hd (by simp [H.hm]) H.sel1 H.sel2 H.shadow
+  have hexec := no_panic inp hWF []
+  unfold obs05 spec05
+  simp only [hcomp, Bool.not_true, Bool.false_eq_true, ↓reduceIte, hn, fromWritesReceiver]
+  congr 1
+  congr 1
+  · split
+    · have hto : (leavesOf inp.dest).filterMap (fun l => (optV (specTo inp l)).map (fun v => ("to:" ++ joinPath l.path, v))) =
+          (leavesOf inp.dest).map (fun l => ("to:" ++ joinPath l.path, obsLeaf (execTo inp []) l)) := by
+        apply filterMap_eq_map_of
+        intro l hl
+        rw [to_leaf inp H l hl]; rfl
+      rw [hto, hexec.1]
+    · rfl
+  · split
+    · have hfrom : (leavesOf inp.src).filterMap (fun l => (optV (specFrom inp l)).map (fun v => ("from:" ++ joinPath l.path, v))) =
+          (leavesOf inp.src).map (fun l => ("from:" ++ joinPath l.path, obsLeaf (execFrom inp []) l)) := by
+        apply filterMap_eq_map_of
+        intro l hl
+        rw [from_leaf inp H .clean l hl]; rfl
+      rw [hfrom, hexec.2 .clean]
+      simp
+    · rfl
+
+
+/-- names are ASCII: every field name of both sides and every `map:"Name"` tag value of the source side -/
+def asciiOk (inp : Input) : Bool :=
+  (allNames inp.src ++ allNames inp.dest).all asciiS &&
+  (leavesOf inp.src).all (fun l => match l.decl.tag with | .name x => asciiS x | _ => true)
+
+/-- region `WF` of C05 (what the driver prints for the case), ASCII names and distinct dotted leaf paths give `PlainOk` -/
+theorem plainOk_of_WF (inp : Input) (h : region05 inp = "WF") (ha : asciiOk inp = true)
+    (hk1 : ((leavesOf inp.src).map (fun l => joinPath l.path)).Nodup)
+    (hk2 : ((leavesOf inp.dest).map (fun l => joinPath l.path)).Nodup) : PlainOk inp := by
+  unfold region05 at h
+  split at h
+  · exact absurd h (by decide)
+  rename_i h1
+  split at h
+  · exact absurd h (by decide)
+  rename_i h2
+  split at h
+  · exact absurd h (by decide)
+  rename_i h3
+  split at h
+  · exact absurd h (by decide)
+  rename_i h4
+  split at h
+  · exact absurd h (by decide)
+  rename_i h5
+  split at h
+  · exact absurd h (by decide)
+  rename_i h6
+  simp only [Bool.or_eq_true, Bool.not_eq_true', beq_iff_eq, not_or, Bool.not_eq_false] at h1 h2
+  obtain ⟨⟨⟨hg, hs⟩, hd⟩, hm⟩ := h1
+  simp only [grammarOk, Bool.and_eq_true] at hg
+  obtain ⟨⟨⟨⟨⟨⟨⟨⟨⟨⟨⟨_, _⟩, hsel1⟩, hsel2⟩, _⟩, _⟩, _⟩, _⟩, _⟩, _⟩, _⟩, _⟩ := hg
+  simp only [asciiOk, Bool.and_eq_true, List.all_eq_true, List.mem_append, allNames, List.mem_map] at ha
+  have hno := h2.1
+  simp only [namesOk05, List.all_eq_true, List.mem_append, List.mem_map, List.mem_filter, allNames] at hno
+  refine ⟨by simpa using hs, by simpa using hd, by simpa using hm, hsel1, hsel2, by simpa using h3, by simpa using h4,
+    by simpa using h2.2, by simpa using h6, hk1, hk2, ?_, ?_⟩
+  · intro s hs'
+    apply effName_clean s (ha.1 _ (Or.inl ⟨s, hs', rfl⟩))
+    · intro x hx
+      have := ha.2 s hs'
+      rw [hx] at this
+      exact this
+    · cases ht : s.decl.tag with
+      | name x => rfl
+      | none => exact hno _ (Or.inl ⟨s, ⟨hs', by simp [ht]⟩, rfl⟩)
+      | skip => exact hno _ (Or.inl ⟨s, ⟨hs', by simp [ht]⟩, rfl⟩)
+  · intro d hd'
+    exact ⟨(asciiS_iff _).mp (ha.1 _ (Or.inr ⟨d, hd', rfl⟩)), (noUnderscore_iff _).mp (hno _ (Or.inr ⟨d, hd', rfl⟩))⟩
+
 end ShootVerif.Mapper
